@@ -516,8 +516,10 @@ def _all_loop_keywords(toks):
     return res
 
 
-def loop_headers(src, log, keep_for=()):
+def loop_headers(src, log, keep_for=(), force_raw=()):
     """R10: enumerate()/&-pattern headers; R11: for-loops containing `continue` -> loop+next().
+    `force_raw`: loop ordinals whose contract is written against the raw form; they are desugared whether or
+    not they (still) contain a `continue`.
     `keep_for`: loop ordinals (1-based, all loop kinds, textual order) whose contract is written in the
     vocabulary of Verus's own `for` desugaring: they stay `for` loops here and are desugared by the
     weaver (R11w) when they contain a `continue`."""
@@ -545,7 +547,7 @@ def loop_headers(src, log, keep_for=()):
                 var = pat[1:].strip()
                 new = "for %s_ref in %s { let %s = *%s_ref;%s}" % (var, expr, var, var, body)
                 log.append({"rule": "R10", "shape": "ref-pattern", "var": var})
-            elif _contains_own_continue(toks, bo + 1, bc) and ordinal not in keep_for:
+            elif (_contains_own_continue(toks, bo + 1, bc) and ordinal not in keep_for) or ordinal in force_raw:
                 counter[0] += 1
                 it = "verif_it%d" % counter[0]
                 # label the loop so that woven invariants can name the iterator
